@@ -757,6 +757,11 @@ def verify_function(key: str, repo: Repo, reg, timeout_s=20, facet=None) -> Func
         if not is_init:
             for src in invs:
                 st.assume(I.contract_truth(src, st))
+            if cls is not None and not is_static and "classmethod" not in decos:
+                for c_ in I.repo.mro(selfcls) or [selfcls]:
+                    spec_ = reg["classes"].get(c_)
+                    for src in (getattr(spec_, "ghost_link", []) if spec_ else []):
+                        st.assume(I.contract_truth(src, st))
         for src in c.requires + c.ghost_requires:
             st.assume(I.contract_truth(src, st))
         pre = st.fork()
